@@ -406,9 +406,15 @@ MORE = {
            'three DemoStorage layerings and the BlobStorage wrapper over a '
            'FileStorage and a MappingStorage and a FileStorage with its own '
            'blob directory, with blob stores; stray calls (incl. storeBlob) '
-           'with another transaction at every entry point.',
-        'C06': 'DB.undoMultiple in both orders; after every refused DB.undo the '
-           'next ordinary commit must go through (controlled locks).',
+           'with another transaction at every entry point; on the three blob '
+           'kinds one failure at the n-th mutating file-system operation of '
+           'begin + store + 2 blob stores + vote for every n, with the files '
+           'handed in on the same and on another file system (rename '
+           'answers EXDEV).',
+    'C06': 'DB.undoMultiple in both orders; after every refused DB.undo the '
+           'next ordinary commit must go through (controlled locks); a '
+           'storage client that catches the refusal of an undo and commits '
+           'the transaction all the same (nothing may have been written).',
     'C07': 'Packs of a storage whose first request hit an empty database, a '
            'start state with two records of one object in one transaction, '
            'stale-id undo of the newest packed transaction (refused, or same '
